@@ -330,7 +330,7 @@ static void log_event(int si, int n, int i, const m_evt_t *e) {
     case M_SRC_TYPE_FD: {
         int fd = e->fd_evt->fd; int u = ufd_of(fd);
         snprintf(d, sizeof(d), "fd idx=%d raw=%d", u, fd);
-        if (u >= 0 && !UFD[u].nodrain) {
+        if (u >= 0 && !UFD[u].nodrain && UFD[u].kind != 3) {
             in_harness_io++;
             if (UFD[u].kind == 1) { uint64_t v; if (read(UFD[u].rd, &v, 8) == 8) UFD[u].drained += (long)v; }
             else { char c; if (read(UFD[u].rd, &c, 1) == 1) UFD[u].drained++; }
@@ -517,14 +517,16 @@ static long long do_op(op_t *o) {
             int fd = open(f, O_CREAT | O_RDWR, 0600); unlink(f);
             if (fd < 0) { ret = -errno; in_harness_io--; break; }
             u->rd = u->wr = fd; u->kind = 2; }
+        else if (a[1] == 3) {   /* a pipe registered by its WRITE end: once the reader is gone (fd_hup) it reports an error condition for ever */
+            int p[2]; if (__real_pipe(p) != 0) { ret = -errno; in_harness_io--; break; } fcntl(p[0], F_SETFL, O_NONBLOCK); fcntl(p[1], F_SETFL, O_NONBLOCK); u->rd = p[1]; u->wr = p[0]; u->kind = 3; }
         else { int p[2]; if (__real_pipe(p) != 0) { ret = -errno; in_harness_io--; break; } fcntl(p[0], F_SETFL, O_NONBLOCK); fcntl(p[1], F_SETFL, O_NONBLOCK); u->rd = p[0]; u->wr = p[1]; u->kind = 0; }
         in_harness_io--;
         u->open = true; u->written = u->drained = 0; u->nodrain = a[2] != 0; u->rd_closed = u->wr_closed = false;
         user_fd_opened(u->rd, (int)a[0]); if (u->wr != u->rd) user_fd_opened(u->wr, (int)a[0]);
         ret = u->rd;
         break; }
-    case OP_FD_WRITE: { ufd_t *u = &UFD[a[0]]; if (!u->open || u->wr_closed) { ret = -1004; break; } if (u->kind == 1) { uint64_t v = 1; ret = write(u->wr, &v, 8) == 8 ? 0 : -errno; } else { char c = 'x'; ret = write(u->wr, &c, 1) == 1 ? 0 : -errno; } if (ret == 0) u->written++; break; }
-    case OP_FD_HUP: { ufd_t *u = &UFD[a[0]]; if (!u->open || u->kind != 0 || u->wr_closed || u->wr == u->rd) { ret = -1004; break; }
+    case OP_FD_WRITE: { ufd_t *u = &UFD[a[0]]; if (!u->open || u->wr_closed || u->kind == 3) { ret = -1004; break; } if (u->kind == 1) { uint64_t v = 1; ret = write(u->wr, &v, 8) == 8 ? 0 : -errno; } else { char c = 'x'; ret = write(u->wr, &c, 1) == 1 ? 0 : -errno; } if (ret == 0) u->written++; break; }
+    case OP_FD_HUP: { ufd_t *u = &UFD[a[0]]; if (!u->open || (u->kind != 0 && u->kind != 3) || u->wr_closed || u->wr == u->rd) { ret = -1004; break; }
         __real_close(u->wr); user_fd_closed(u->wr); u->wr_closed = true; break; }
     case OP_FD_CLOSE: { ufd_t *u = &UFD[a[0]]; if (!u->open) { ret = -1004; break; }
         bool now[MAXFD]; snapshot_fds(now);
